@@ -239,9 +239,10 @@ def P_jc(t, i, j):
     return (nf.const(1) / 4 if isinstance(t, nf.RF) else 0.25) - e / 4
 
 
-def scn_model(newick, taxa_names, seqs, dates, tree_kind, clock, site, K, tip_states, use_amb, batch, subst_kind="stub", rescale=False):
+def scn_model(newick, taxa_names, seqs, dates, tree_kind, clock, site, K, tip_states, use_amb, batch, subst_kind="stub", rescale=False, clock_batch=None):
     """tree_kind: 'unrooted' | 'time'; clock: None|'strict'|'simple'; site: 'constant'|'weibull'|'invariant'"""
     batch = tuple(batch)
+    cbatch = batch if clock_batch is None else tuple(clock_batch)   # the clock rates may carry their own sample shape
     T = len(taxa_names)
     S = 4
 
@@ -285,10 +286,10 @@ def scn_model(newick, taxa_names, seqs, dates, tree_kind, clock, site, K, tip_st
             KK = 2
         cm = None
         if clock == "strict":
-            cr = mk.real("clock", batch + (1,), lo=0)
+            cr = mk.real("clock", cbatch + (1,), lo=0)
             cm = StrictClockModel("clock", Parameter("clock", cr), tm)
         elif clock == "simple":
-            cr = mk.real("clock", batch + (2 * T - 2,), lo=0)
+            cr = mk.real("clock", cbatch + (2 * T - 2,), lo=0)
             cm = SimpleClockModel("clock", Parameter("clock", cr), tm)
         if subst_kind == "stub":
             subst = make_subst_stub(mk, freqs, S)
@@ -324,7 +325,11 @@ def scn_model(newick, taxa_names, seqs, dates, tree_kind, clock, site, K, tip_st
 
         spec = []
         ncol = len(seqs[0])
-        for b in itertools.product(*[range(s) for s in batch]):
+        obatch = batch if len(batch) >= len(cbatch) else cbatch
+        for ob in itertools.product(*[range(s) for s in obatch]):
+            b = ob[:len(batch)] if batch else ()
+            cb = ob[:len(cbatch)] if cbatch else ()
+
             def length(c):
                 if tree_kind == "unrooted":
                     if c == 2 * T - 3:
@@ -336,9 +341,9 @@ def scn_model(newick, taxa_names, seqs, dates, tree_kind, clock, site, K, tip_st
                 d = hp - hc
                 mk.require(d > 0)
                 if clock == "strict":
-                    return d * el(cr, b + (0,))
+                    return d * el(cr, cb + (0,))
                 if clock == "simple":
-                    return d * el(cr, b + (c,))
+                    return d * el(cr, cb + (c,))
                 return d
             tot = 0
             for col in range(ncol):
@@ -648,6 +653,13 @@ def obligations(tier, seed):
     add("C01.model.JC69[((A,B),(C,D));,time,strict,invariant]", "scn_model",
         ("((A,B),(C,D));", ["A", "B", "C", "D"], ["AC", "CG", "GT", "TN"], [0.0, 1.0, 0.0, 2.0], "time", "strict", "invariant", 2, False, True, (2,), "JC69"),
         "TreeLikelihoodModel pipeline with the real JC69 model ≡ marginal sum")
+    for ck in ("strict", "simple"):
+        add("C01.model.JC69[((A,B),C);,time,%s,clock batched (3,), heights fixed]" % ck, "scn_model",
+            ("((A,B),C);", ["A", "B", "C"], ["AC", "CG", "GT"], [0.0, 1.0, 0.0], "time", ck, "constant", 1, False, True, (), "JC69", False, (3,)),
+            "TreeLikelihoodModel pipeline ≡ marginal sum: clock rates carry a sample dimension, node heights do not")
+        add("C01.model.JC69[((A,B),C);,time,%s,heights batched (2,), clock fixed]" % ck, "scn_model",
+            ("((A,B),C);", ["A", "B", "C"], ["AC", "CG", "GT"], [0.0, 1.0, 0.0], "time", ck, "constant", 1, False, True, (2,), "JC69", False, ()),
+            "TreeLikelihoodModel pipeline ≡ marginal sum: node heights carry a sample dimension, clock rates do not")
     for ts_ in (False, True):
         add("C01.model.rescaled[((A,B),C);,unrooted,tipstates=%s]" % ts_, "scn_model",
             ("((A,B),C);", ["C", "A", "B"], ["ACRA", "CGNC", "GT-G"], [0.0, 0.0, 0.0], "unrooted", None, "weibull", 2, ts_, True, (), "stub", True),
